@@ -3,6 +3,7 @@
 use vstd::prelude::*;
 verus! {
 //@include prelude/float_opaque.rs
+//@include prelude/float_real_axioms.rs
 //@include prelude/std_assumed.rs
 //@enum file=src/qdldl/qdldl.rs name=QDLDLError
 //@const file=src/qdldl/qdldl.rs name=QDLDL_UNKNOWN
@@ -75,40 +76,206 @@ pub open spec fn l_wf(n: int, lp: Seq<usize>, li: Seq<usize>, lx: Seq<F>) -> boo
     &&& forall|k: int| 0 <= k < lp[n] ==> #[trigger] li[k] < n
 }
 
+// ---- what the solves compute, in real arithmetic (F-real): products with the strictly lower triangular L read off its CSC arrays
+pub open spec fn l_strict(n: int, lp: Seq<usize>, li: Seq<usize>) -> bool {
+    forall|c: int, j: int| #[trigger] l_in_col(n, lp, c, j) ==> li[j] > c
+}
+pub open spec fn l_in_col(n: int, lp: Seq<usize>, c: int, j: int) -> bool { 0 <= c < n && lp[c] <= j < lp[c + 1] }
+// contribution of the entries lp[c]..hi of column c to row r of L*y
+pub open spec fn lcol(lp: Seq<usize>, li: Seq<usize>, lx: Seq<F>, y: Seq<F>, r: int, c: int, hi: int) -> real decreases hi - lp[c] {
+    if hi <= lp[c] { 0real } else { lcol(lp, li, lx, y, r, c, hi - 1) + (if li[hi - 1] == r { lx[hi - 1].v() * y[c].v() } else { 0real }) }
+}
+// (L y)_r restricted to the columns < i
+pub open spec fn ltot(lp: Seq<usize>, li: Seq<usize>, lx: Seq<F>, y: Seq<F>, r: int, i: int) -> real decreases i {
+    if i <= 0 { 0real } else { ltot(lp, li, lx, y, r, i - 1) + lcol(lp, li, lx, y, r, i - 1, lp[i] as int) }
+}
+// (L' y)_i over the entries lp[i]..hi of column i
+pub open spec fn ltdot(lp: Seq<usize>, li: Seq<usize>, lx: Seq<F>, y: Seq<F>, i: int, hi: int) -> real decreases hi - lp[i] {
+    if hi <= lp[i] { 0real } else { ltdot(lp, li, lx, y, i, hi - 1) + lx[hi - 1].v() * y[li[hi - 1] as int].v() }
+}
+pub proof fn lemma_lcol_frame(lp: Seq<usize>, li: Seq<usize>, lx: Seq<F>, y1: Seq<F>, y2: Seq<F>, r: int, c: int, hi: int)
+    requires y1[c] == y2[c],
+    ensures lcol(lp, li, lx, y1, r, c, hi) == lcol(lp, li, lx, y2, r, c, hi),
+    decreases hi - lp[c],
+{ if hi > lp[c] { lemma_lcol_frame(lp, li, lx, y1, y2, r, c, hi - 1); } }
+pub proof fn lemma_ltot_frame(lp: Seq<usize>, li: Seq<usize>, lx: Seq<F>, y1: Seq<F>, y2: Seq<F>, r: int, i: int)
+    requires forall|c: int| 0 <= c < i ==> y1[c] == y2[c],
+    ensures ltot(lp, li, lx, y1, r, i) == ltot(lp, li, lx, y2, r, i),
+    decreases i,
+{ if i > 0 { lemma_ltot_frame(lp, li, lx, y1, y2, r, i - 1); lemma_lcol_frame(lp, li, lx, y1, y2, r, i - 1, lp[i] as int); } }
+pub proof fn lemma_ltdot_frame(lp: Seq<usize>, li: Seq<usize>, lx: Seq<F>, y1: Seq<F>, y2: Seq<F>, i: int, hi: int)
+    requires forall|j: int| lp[i] <= j < hi ==> y1[li[j] as int] == y2[li[j] as int],
+    ensures ltdot(lp, li, lx, y1, i, hi) == ltdot(lp, li, lx, y2, i, hi),
+    decreases hi - lp[i],
+{ if hi > lp[i] { lemma_ltdot_frame(lp, li, lx, y1, y2, i, hi - 1); } }
+pub open spec fn solve_witness(lp: Seq<usize>, li: Seq<usize>, lx: Seq<F>, dinv: Seq<F>, b: Seq<F>, z: Seq<F>, x: Seq<F>) -> bool {
+    let n = b.len() as int;
+    &&& z.len() == n && x.len() == n
+    &&& forall|r: int| 0 <= r < n ==> (#[trigger] z[r]).v() + ltot(lp, li, lx, z, r, n) == b[r].v()
+    &&& forall|r: int| 0 <= r < n ==> (#[trigger] x[r]).v() + ltdot(lp, li, lx, x, r, lp[r + 1] as int) == dinv[r].v() * z[r].v()
+}
+pub open spec fn range_from0(sq: Seq<usize>) -> bool { forall|k: int| 0 <= k < sq.len() ==> #[trigger] sq[k] == k }
+
 //@fn file=src/qdldl/qdldl.rs name=_lsolve_unsafe rules=R1,R10,zipidx:2
 //@contract
     requires l_wf(old(x)@.len() as int, Lp@, Li@, Lx@),
     ensures final(x)@.len() == old(x)@.len(),
+        // C12 (real arithmetic): the result solves (I + L) x = b exactly, row by row
+        l_strict(old(x)@.len() as int, Lp@, Li@) ==> forall|r: int| 0 <= r < old(x)@.len() ==>
+            (#[trigger] final(x)@[r]).v() + ltot(Lp@, Li@, Lx@, final(x)@, r, old(x)@.len() as int) == old(x)@[r].v(),
+//@pre
+        broadcast use real_arith;
+        let ghost b0 = x@;
+        let ghost n = x@.len() as int;
+        let ghost strict = l_strict(n, Lp@, Li@);
+//@iter 1
+it0
 //@loop 1
         invariant x@.len() == old(x)@.len(), l_wf(x@.len() as int, Lp@, Li@, Lx@),
+            it0.seq().len() == n, range_from0(it0.seq()), n == x@.len(), b0 == old(x)@, strict == l_strict(n, Lp@, Li@),
+            strict ==> forall|r: int| 0 <= r < n ==> (#[trigger] x@[r]).v() + ltot(Lp@, Li@, Lx@, x@, r, it0.index@ as int) == b0[r].v(),
+//@body_start 1
+            broadcast use real_arith;
+            let ghost gi = i as int;
+            let ghost x1 = x@;
+//@iter 2
+it1
 //@loop 2
             invariant x@.len() == old(x)@.len(), l_wf(x@.len() as int, Lp@, Li@, Lx@), i < x@.len(), f == Lp@[i as int], l == Lp@[i + 1],
                 r14_n1 <= l - f, r14_lo1_0 == f, r14_lo1_1 == f,
+                it1.seq().len() == r14_n1, range_from0(it1.seq()), r14_n1 == l - f, gi == i, n == x@.len(), xi == x1[gi], strict == l_strict(n, Lp@, Li@), x1.len() == n,
+                strict ==> forall|c: int| 0 <= c <= gi ==> #[trigger] x@[c] == x1[c],
+                strict ==> forall|r: int| 0 <= r < n ==> (#[trigger] x@[r]).v() + ltot(Lp@, Li@, Lx@, x1, r, gi) + lcol(Lp@, Li@, Lx@, x1, r, gi, f + it1.index@) == b0[r].v(),
+//@body_start 2
+                broadcast use real_arith;
+                let ghost gj = f as int + r14_i1 as int;
+                let ghost x2 = x@;
+                proof {
+                    assert(Lp@[gi] <= Lp@[gi + 1] <= Lp@[n]);
+                    if strict { assert(l_in_col(n, Lp@, gi, gj)); assert(Li@[gj] > gi); }
+                    assert(forall|r: int| 0 <= r < n ==> lcol(Lp@, Li@, Lx@, x1, r, gi, gj + 1) == lcol(Lp@, Li@, Lx@, x1, r, gi, gj) + (if Li@[gj] == r { Lx@[gj].v() * x1[gi].v() } else { 0real }));
+                }
+//@body_end 1
+            proof {
+                if strict {
+                    assert forall|r: int| 0 <= r < n implies (#[trigger] x@[r]).v() + ltot(Lp@, Li@, Lx@, x@, r, gi + 1) == b0[r].v() by {
+                        lemma_ltot_frame(Lp@, Li@, Lx@, x1, x@, r, gi);
+                        lemma_lcol_frame(Lp@, Li@, Lx@, x1, x@, r, gi, Lp@[gi + 1] as int);
+                    }
+                }
+            }
 //@end
 //@fn file=src/qdldl/qdldl.rs name=_dltsolve_unsafe rules=R1,R10,zipidx:2
 //@contract
     requires l_wf(old(x)@.len() as int, Lp@, Li@, Lx@), Dinv@.len() >= old(x)@.len(),
     ensures final(x)@.len() == old(x)@.len(),
+        // C12 (real arithmetic): the result solves D (I + L)' x = b, i.e. x_i + (L' x)_i = b_i / d_i exactly, row by row
+        l_strict(old(x)@.len() as int, Lp@, Li@) ==> forall|r: int| 0 <= r < old(x)@.len() ==>
+            (#[trigger] final(x)@[r]).v() + ltdot(Lp@, Li@, Lx@, final(x)@, r, Lp@[r + 1] as int) == Dinv@[r].v() * old(x)@[r].v(),
+//@pre
+        broadcast use real_arith;
+        let ghost b0 = x@;
+        let ghost n = x@.len() as int;
+        let ghost strict = l_strict(n, Lp@, Li@);
+//@iter 1
+it0
 //@loop 1
         invariant x@.len() == old(x)@.len(), l_wf(x@.len() as int, Lp@, Li@, Lx@), Dinv@.len() >= x@.len(),
+            it0.seq().len() == n, (forall|k: int| 0 <= k < n ==> #[trigger] it0.seq()[k] == n - 1 - k), n == x@.len(), b0 == old(x)@, strict == l_strict(n, Lp@, Li@),
+            forall|r: int| 0 <= r < n - it0.index@ ==> #[trigger] x@[r] == b0[r],
+            strict ==> forall|r: int| n - it0.index@ <= r < n ==> (#[trigger] x@[r]).v() + ltdot(Lp@, Li@, Lx@, x@, r, Lp@[r + 1] as int) == Dinv@[r].v() * b0[r].v(),
+//@body_start 1
+            broadcast use real_arith;
+            let ghost gi = i as int;
+            let ghost x1 = x@;
+            proof { assert(Lp@[gi] <= Lp@[gi + 1] <= Lp@[n]); }
+//@iter 2
+it1
 //@loop 2
             invariant x@.len() == old(x)@.len(), l_wf(x@.len() as int, Lp@, Li@, Lx@), i < x@.len(), f == Lp@[i as int], l == Lp@[i + 1],
                 r14_n1 <= l - f, r14_lo1_0 == f, r14_lo1_1 == f,
+                it1.seq().len() == r14_n1, range_from0(it1.seq()), r14_n1 == l - f, gi == i, n == x@.len(), x@ == x1,
+                s.v() == ltdot(Lp@, Li@, Lx@, x1, gi, f + it1.index@),
+//@body_start 2
+                broadcast use real_arith;
+                proof {
+                    let gj = f as int + r14_i1 as int;
+                    assert(ltdot(Lp@, Li@, Lx@, x1, gi, gj + 1) == ltdot(Lp@, Li@, Lx@, x1, gi, gj) + Lx@[gj].v() * x1[Li@[gj] as int].v());
+                }
+//@body_end 1
+            proof {
+                if strict {
+                    assert forall|r: int| gi <= r < n implies (#[trigger] x@[r]).v() + ltdot(Lp@, Li@, Lx@, x@, r, Lp@[r + 1] as int) == Dinv@[r].v() * b0[r].v() by {
+                        assert forall|j: int| Lp@[r] <= j < Lp@[r + 1] implies x1[Li@[j] as int] == x@[Li@[j] as int] by {
+                            assert(l_in_col(n, Lp@, r, j)); assert(Li@[j] > r);
+                        }
+                        lemma_ltdot_frame(Lp@, Li@, Lx@, x1, x@, r, Lp@[r + 1] as int);
+                        if r == gi { assert(Dinv@[gi].v() * b0[gi].v() == b0[gi].v() * Dinv@[gi].v()) by(nonlinear_arith); }
+                    }
+                }
+            }
 //@end
 //@fn file=src/qdldl/qdldl.rs name=_ltsolve_unsafe rules=R1,R10,zipidx:2
 //@contract
     requires l_wf(old(x)@.len() as int, Lp@, Li@, Lx@),
     ensures final(x)@.len() == old(x)@.len(),
+        // C12 (real arithmetic): the result solves (I + L)' x = b exactly, row by row
+        l_strict(old(x)@.len() as int, Lp@, Li@) ==> forall|r: int| 0 <= r < old(x)@.len() ==>
+            (#[trigger] final(x)@[r]).v() + ltdot(Lp@, Li@, Lx@, final(x)@, r, Lp@[r + 1] as int) == old(x)@[r].v(),
+//@pre
+        broadcast use real_arith;
+        let ghost b0 = x@;
+        let ghost n = x@.len() as int;
+        let ghost strict = l_strict(n, Lp@, Li@);
+//@iter 1
+it0
 //@loop 1
         invariant x@.len() == old(x)@.len(), l_wf(x@.len() as int, Lp@, Li@, Lx@),
+            it0.seq().len() == n, (forall|k: int| 0 <= k < n ==> #[trigger] it0.seq()[k] == n - 1 - k), n == x@.len(), b0 == old(x)@, strict == l_strict(n, Lp@, Li@),
+            forall|r: int| 0 <= r < n - it0.index@ ==> #[trigger] x@[r] == b0[r],
+            strict ==> forall|r: int| n - it0.index@ <= r < n ==> (#[trigger] x@[r]).v() + ltdot(Lp@, Li@, Lx@, x@, r, Lp@[r + 1] as int) == b0[r].v(),
+//@body_start 1
+            broadcast use real_arith;
+            let ghost gi = i as int;
+            let ghost x1 = x@;
+            proof { assert(Lp@[gi] <= Lp@[gi + 1] <= Lp@[n]); }
+//@iter 2
+it1
 //@loop 2
             invariant x@.len() == old(x)@.len(), l_wf(x@.len() as int, Lp@, Li@, Lx@), i < x@.len(), f == Lp@[i as int], l == Lp@[i + 1],
                 r14_n1 <= l - f, r14_lo1_0 == f, r14_lo1_1 == f,
+                it1.seq().len() == r14_n1, range_from0(it1.seq()), r14_n1 == l - f, gi == i, n == x@.len(), x@ == x1,
+                s.v() == ltdot(Lp@, Li@, Lx@, x1, gi, f + it1.index@),
+//@body_start 2
+                broadcast use real_arith;
+                proof {
+                    let gj = f as int + r14_i1 as int;
+                    assert(ltdot(Lp@, Li@, Lx@, x1, gi, gj + 1) == ltdot(Lp@, Li@, Lx@, x1, gi, gj) + Lx@[gj].v() * x1[Li@[gj] as int].v());
+                }
+//@body_end 1
+            proof {
+                if strict {
+                    assert forall|r: int| gi <= r < n implies (#[trigger] x@[r]).v() + ltdot(Lp@, Li@, Lx@, x@, r, Lp@[r + 1] as int) == b0[r].v() by {
+                        assert forall|j: int| Lp@[r] <= j < Lp@[r + 1] implies x1[Li@[j] as int] == x@[Li@[j] as int] by {
+                            assert(l_in_col(n, Lp@, r, j)); assert(Li@[j] > r);
+                        }
+                        lemma_ltdot_frame(Lp@, Li@, Lx@, x1, x@, r, Lp@[r + 1] as int);
+                        if r == gi {  }
+                    }
+                }
+            }
 //@end
 //@fn file=src/qdldl/qdldl.rs name=_solve rules=R1
 //@contract
     requires l_wf(old(b)@.len() as int, Lp@, Li@, Lx@), Dinv@.len() >= old(b)@.len(),
     ensures final(b)@.len() == old(b)@.len(),
+        // C12 ("solves reproduce b", exact in real arithmetic): with z the intermediate vector, (I+L) z = b and D (I+L)' x = z,
+        // i.e. x solves (I+L) D (I+L)' x = b for the factors as stored (Dinv holding the reciprocals of D)
+        l_strict(old(b)@.len() as int, Lp@, Li@) ==> exists|z: Seq<F>| solve_witness(Lp@, Li@, Lx@, Dinv@, old(b)@, z, final(b)@),
+//@after "_lsolve_unsafe(Lp, Li, Lx, b);"
+    let ghost z = b@;
+//@after "_dltsolve_unsafe(Lp, Li, Lx, Dinv, b);"
+    proof { if l_strict(old(b)@.len() as int, Lp@, Li@) { assert(solve_witness(Lp@, Li@, Lx@, Dinv@, old(b)@, z, b@)); } }
 //@end
 
 // ------------------------------------------------------------------ permutations
@@ -295,8 +462,31 @@ it
         // the factorisation itself is not modified by a solve (only the float workspace is)
         final(self).L == old(self).L, final(self).D == old(self).D, final(self).Dinv == old(self).Dinv, final(self).perm == old(self).perm,
         final(self).workspace.triuA == old(self).workspace.triuA, final(self).workspace.AtoPAPt == old(self).workspace.AtoPAPt,
+        // C12 ("solves reproduce b", exact in real arithmetic): in the permuted ordering, with pb[i] = b[perm[i]], the returned x satisfies
+        // (I+L) D (I+L)' (P x) = P b : there are z, y with (I+L) z = pb, D (I+L)' y = z, and x[perm[i]] = y[i]
+        l_strict(old(b)@.len() as int, old(self).L.colptr@, old(self).L.rowval@) && distinct(old(self).perm@) ==>
+            exists|z: Seq<F>, y: Seq<F>| #[trigger] solve_witness(old(self).L.colptr@, old(self).L.rowval@, old(self).L.nzval@, old(self).Dinv@, permuted(old(b)@, old(self).perm@), z, y)
+                && forall|i: int| 0 <= i < old(b)@.len() ==> #[trigger] final(b)@[old(self).perm@[i] as int] == y[i],
+//@pre
+        let ghost b0 = b@;
+        let ghost pm = self.perm@;
+//@after "permute(tmp, b, &self.perm);"
+        let ghost t0 = tmp@;
+        proof { assert(t0 =~= permuted(b0, pm)); }
+//@after "ipermute(b, tmp, &self.perm);"
+        proof {
+            if l_strict(b0.len() as int, self.L.colptr@, self.L.rowval@) && distinct(pm) {
+                let z = choose|z: Seq<F>| solve_witness(self.L.colptr@, self.L.rowval@, self.L.nzval@, self.Dinv@, t0, z, tmp@);
+                assert(solve_witness(self.L.colptr@, self.L.rowval@, self.L.nzval@, self.Dinv@, permuted(b0, pm), z, tmp@));
+                assert forall|i: int| 0 <= i < b0.len() implies #[trigger] b@[pm[i] as int] == tmp@[i] by {
+                    assert(forall|i2: int| i < i2 < pm.len() && i2 < tmp@.len() ==> pm[i2] != pm[i]);
+                }
+            }
+        }
 //@end
 }
+pub open spec fn distinct(p: Seq<usize>) -> bool { forall|i: int, j: int| 0 <= i < j < p.len() ==> p[i] != p[j] }
+pub open spec fn permuted(b: Seq<F>, p: Seq<usize>) -> Seq<F> { Seq::new(b.len(), |i: int| b[p[i] as int]) }
 pub open spec fn shifted(v: F, offset: F, sign: i8) -> F { if sign > 0 { f_add(v, offset) } else if sign < 0 { f_sub(v, offset) } else { v } }
 
 } // verus!
